@@ -1247,4 +1247,77 @@ theorem mutate_parent_content (H : Hash) (s : Store) (c p key : Nat) (op : Op) (
   exact getChildVal_setChildVal hg1 hupd
 
 
+/-! ### end to end: root view, child view, mutation through the child -/
+
+/-- Hold a root view over a tree representing `v`, take its child view at `key`, mutate through the
+    child: the ROOT view then reads (and hashes to) `v` with the child at `key` replaced by the
+    result of the operation on the child value. -/
+theorem child_then_mutate (H : Hash) (t : Ty) (v : Val) (n : Node) (hwf : t.wf = true)
+    (hlim : limitsOk t = true) (hr : Impl.Repr H t v n) (key : Nat) (op : Op) (s1 s2 : Store)
+    (h1 : step H [⟨t, n, none⟩] (.child 0 key) = some s1)
+    (h2 : step H s1 (.mutate 1 op) = some s2) :
+    ∃ ct cv new v' o', getChildVal t v key = some (ct, cv) ∧ applyOp ct cv op = some new ∧
+      setChildVal t v key new = some v' ∧ s2[0]? = some o' ∧ o'.ty = t ∧
+      readVal H t o'.backing = some v' ∧ o'.backing.root H = Spec.htr H t v' := by
+  have hc0 := coherent_singleton H t v n hwf hlim hr
+  obtain ⟨cv, hc1, o, ct, ho, hg⟩ := step_child_coherent H _ 0 key s1 _ hc0 h1
+  simp only [List.getElem?_cons_zero, Option.some.injEq] at ho
+  subst ho
+  obtain ⟨o0, ct', cn, ho0, hch, rfl⟩ := step_child_eq H _ 0 key s1 h1
+  simp only [List.getElem?_cons_zero, Option.some.injEq] at ho0
+  subst ho0
+  simp only [List.length_singleton] at hc1 hg
+  obtain ⟨cv', hg', _⟩ := childOf_repr_get H t v n key ct' cn hwf hlim hr hch
+  rw [hg] at hg'
+  simp only [Option.some.injEq, Prod.mk.injEq] at hg'
+  obtain ⟨rfl, rfl⟩ := hg'
+  obtain ⟨new, pv', oc', po', hop, hsv, _, hpo', _, t2, _, r2, _⟩ :=
+    mutate_parent_content H _ 1 0 key op s2 _ ⟨ct, cn, some (0, key)⟩ ⟨t, n, none⟩ hc1
+      (by simp) rfl (by simp) h2
+  simp only [if_pos, if_neg (show ¬ (0 : Nat) = 1 by omega)] at hop hsv
+  simp only at t2 r2
+  refine ⟨ct, cv, new, pv', po', hg, hop, hsv, hpo', t2, ?_, ?_⟩
+  · exact repr_read H t pv' _ hwf hlim r2
+  · exact repr_root H t pv' _ hwf r2
+
+
+/-- non-vacuity of `child_then_mutate`: whenever the value has a child at `key` and the operation
+    is allowed on the child value, both steps go through -/
+theorem child_then_mutate_succeeds (H : Hash) (t : Ty) (v : Val) (n : Node) (hwf : t.wf = true)
+    (hlim : limitsOk t = true) (hr : Impl.Repr H t v n) (key : Nat) (op : Op) (ct : Ty)
+    (cv new : Val) (hg : getChildVal t v key = some (ct, cv)) (hop : applyOp ct cv op = some new) :
+    ∃ s1 s2, step H [⟨t, n, none⟩] (.child 0 key) = some s1 ∧
+      step H s1 (.mutate 1 op) = some s2 := by
+  obtain ⟨c, hch, _⟩ := getChildVal_childOf H t v n key ct cv hwf hlim hr hg
+  have h1 : step H [⟨t, n, none⟩] (.child 0 key)
+      = some ([⟨t, n, none⟩] ++ [⟨ct, c, some (0, key)⟩]) := by
+    simp [step, hch]
+  have hc0 := coherent_singleton H t v n hwf hlim hr
+  obtain ⟨cv', hc1, o, ct', ho, hg'⟩ := step_child_coherent H _ 0 key _ _ hc0 h1
+  simp only [List.getElem?_cons_zero, Option.some.injEq] at ho
+  subst ho
+  rw [hg] at hg'
+  simp only [Option.some.injEq, Prod.mk.injEq] at hg'
+  obtain ⟨rfl, rfl⟩ := hg'
+  obtain ⟨s2, h2⟩ := mutate_succeeds H _ 1 op _ ⟨ct, c, some (0, key)⟩ new hc1.1 (hc1.on _)
+    (by simp) (by simpa using hop)
+  exact ⟨_, s2, h1, h2⟩
+
+/-- … and the hypotheses are satisfiable: a container holding a list, an append through the held
+    view of the list (any hash) -/
+example (H : Hash) : ∃ n s1 s2,
+    Impl.Repr H (.container [.list (.uint 1) 64, .uint 1]) (.seq [.seq [.num 7], .num 3]) n ∧
+    step H [⟨.container [.list (.uint 1) 64, .uint 1], n, none⟩] (.child 0 0) = some s1 ∧
+    step H s1 (.mutate 1 (.append (.num 9))) = some s2 := by
+  have hwf : (Ty.container [.list (.uint 1) 64, .uint 1]).wf = true := by decide
+  have hlim : limitsOk (.container [.list (.uint 1) 64, .uint 1]) = true := by
+    simp [limitsOk, limitsOkList]
+  obtain ⟨n, _, hr⟩ := repr_exists H (.container [.list (.uint 1) 64, .uint 1])
+    (.seq [.seq [.num 7], .num 3]) hwf (by decide)
+  obtain ⟨s1, s2, h1, h2⟩ := child_then_mutate_succeeds H _ _ n hwf hlim hr 0
+    (.append (.num 9)) (.list (.uint 1) 64) (.seq [.num 7]) (.seq [.num 7, .num 9])
+    (by simp [getChildVal]) (by simp [applyOp, WT])
+  exact ⟨n, s1, s2, hr, h1, h2⟩
+
+
 end Rmk.StoreContent
